@@ -120,6 +120,32 @@ def run(fn, env, max_steps=10000):
 # richer machine: symbolic tokens, aggregates, address-of, call oracle, trace
 # ---------------------------------------------------------------------------
 
+SIZES = {"int8_t": 1, "int16_t": 2, "int32_t": 4, "int64_t": 8, "uint8_t": 1, "uint16_t": 2, "uint32_t": 4,
+         "uint64_t": 8, "float": 4, "double": 8, "char": 1, "short": 2, "int": 4, "long long": 8, "long": 8,
+         "signed char": 1, "unsigned char": 1, "unsigned int": 4, "unsigned long": 8, "unsigned long long": 8,
+         "unsigned short": 2}
+
+
+def sizeof_type(t, fn=None):
+    """size in bytes of a scalar C type name, of `T[k]`, or of a struct declared inside fn (sum of its scalar fields, no
+    padding needed for the homogeneous pairs used here)"""
+    import re
+    if not t:
+        return None
+    t = t.replace("const ", "").replace("volatile ", "").strip()
+    m = re.match(r"^(.*?)\[(\d+)\]$", t)
+    if m:
+        b = sizeof_type(m.group(1).strip(), fn)
+        return None if b is None else b * int(m.group(2))
+    if t.startswith("struct ") and fn is not None:
+        for rec in fn.find("RecordDecl"):
+            if rec.name == t[7:].strip():
+                sizes = [SIZES.get(f.type.strip()) for f in rec.children if f.kind == "FieldDecl"]
+                return None if None in sizes else sum(sizes)
+        return None
+    return SIZES.get(t)
+
+
 class Addr(object):
     """address of a local object (optionally of one element)"""
 
@@ -243,8 +269,12 @@ class Machine(object):
             if op == "%" and isinstance(a, int) and isinstance(b, int) and b != 0:
                 return a - b * (abs(a) // abs(b) * (1 if (a >= 0) == (b >= 0) else -1))
             raise Unknown(s.nsrc)
-        if k == "UnaryExprOrTypeTraitExpr":
-            raise Unknown("sizeof")
+        if k == "UnaryExprOrTypeTraitExpr" and s.d.get("name") == "sizeof":
+            t = (s.d.get("argType") or {}).get("qualType") or (s.children[0].strip(casts=True).type if s.children else None)
+            n = sizeof_type(t, self.fn)
+            if n is None:
+                raise Unknown("sizeof(%s)" % t)
+            return n
         raise Unknown(s.nsrc)
 
     @staticmethod
